@@ -93,12 +93,28 @@ impl<'a> Gen<'a> {
         }
     }
 
-    fn not_a_gate(&mut self) -> St {
-        let v = self.r.pick(&["i", "c", "f", "k"]).to_string();
+    fn not_a_gate(&mut self, global: bool) -> St {
+        // the called name resolves - by lexical scoping - to something that is not a gate; in the
+        // local forms the non-gate is declared in an inner scope (a fresh name, or one that shadows
+        // a library gate or a user gate of the global scope)
+        self.counter += 1;
+        let n = self.counter;
+        let q = self.qoperand();
+        let shadowed = if self.stdlib { "h".to_string() } else if let Some(g) = self.user_gates.first() { g.0.clone() } else { format!("fresh{n}") };
+        let (text, form) = match self.r.below(if global { 6 } else { 4 }) {
+            0 | 1 => {
+                let v = self.r.pick(&["i", "c", "f", "k"]).to_string();
+                (format!("{v} {q};"), "global-variable")
+            }
+            2 => (format!("if (true) {{ int locv{n} = 1; locv{n} {q}; }}"), "local-variable"),
+            3 => (format!("if (true) {{ int {shadowed} = 1; {shadowed} {q}; }}"), "local-variable-shadowing-a-gate"),
+            4 => (format!("def fsh{n}(qubit xq) {{ xq xq; }}"), "qubit-parameter"),
+            _ => (format!("def fsi{n}(int {shadowed}, qubit aq) {{ {shadowed} aq; }}"), "parameter-shadowing-a-gate"),
+        };
         St {
-            text: format!("{v} {};", self.qoperand()),
+            text,
             expect: vec!["IncompatibleTypesError"],
-            rule: "call-of-non-gate".into(),
+            rule: format!("call-of-non-gate/{form}"),
         }
     }
 
@@ -130,10 +146,16 @@ impl<'a> Gen<'a> {
 
     fn binary_on_quantum(&mut self) -> St {
         let op = *self.r.pick(&["+", "-", "*", "/", "&", "|", "^", "<<", "==", "!="]);
-        let (l, lq) = if self.r.bool() { ("q0", true) } else { ("i", false) };
-        let (rr, rq) = match self.r.below(3) {
+        // quantum operands: a qubit, a register, a hardware qubit
+        let (l, lq) = match self.r.below(4) {
+            0 => ("q0", true),
+            1 => ("$0", true),
+            _ => ("i", false),
+        };
+        let (rr, rq) = match self.r.below(5) {
             0 => ("qr", true),
             1 => ("q1", true),
+            2 => ("$1", true),
             _ => ("i", false),
         };
         let mut expect = Vec::new();
@@ -219,7 +241,7 @@ impl<'a> Gen<'a> {
         loop {
             return match self.r.below(12) {
                 0..=3 => self.gate_call(),
-                4 => self.not_a_gate(),
+                4 => self.not_a_gate(global),
                 5 => self.operand_stmt(),
                 6 => self.binary_on_quantum(),
                 7 => match self.def_call() {
